@@ -70,6 +70,10 @@ pub struct GenCfg {
     /// generate the structural corners of permission records (empty tables) and 1-2 character names
     #[serde(default)]
     pub codec_corners: bool,
+    /// share of permission updates that are a *demotion* of the user's current record (one grant taken
+    /// away, the rest kept) followed at once by requests on that user's open connections
+    #[serde(default)]
+    pub revocation_chance: f64,
 }
 
 impl Default for GenCfg {
@@ -95,6 +99,7 @@ impl Default for GenCfg {
             named_ids_chance: 0.2,
             invalid_chance: 0.0,
             codec_corners: false,
+            revocation_chance: 0.0,
         }
     }
 }
@@ -151,6 +156,8 @@ pub struct Gen {
     pub salt: u32,
     pub keys: Vec<Vec<u8>>,
     pub name_counter: u32,
+    /// operations that must follow the one just generated (directed arms)
+    pub pending: std::collections::VecDeque<Op>,
 }
 
 impl Gen {
@@ -166,7 +173,7 @@ impl Gen {
                 rng.bytes(len)
             })
             .collect();
-        Gen { rng, cfg, next_id: 1000, used_ids: Vec::new(), salt: 0, keys, name_counter: 0 }
+        Gen { rng, cfg, next_id: 1000, used_ids: Vec::new(), salt: 0, keys, name_counter: 0, pending: Default::default() }
     }
 
     pub fn fresh_name(&mut self, prefix: &str) -> String {
@@ -235,6 +242,9 @@ impl Gen {
     /// Connection 0 is the administrator's (always root): audits and snapshots go through it, so
     /// session-changing operations are moved to another connection.
     pub fn next(&mut self, model: &Model) -> Op {
+        if let Some(op) = self.pending.pop_front() {
+            return op;
+        }
         let mut op = self.next_raw(model);
         let clients = self.cfg.clients;
         let other = if clients > 1 { Some(1 + self.rng.usize_below(clients - 1)) } else { None };
@@ -246,6 +256,26 @@ impl Gen {
             _ => {}
         }
         op
+    }
+
+    /// A request that needs a permission (data path, catalogue, query), issued by connection `c`.
+    pub fn permission_probe(&mut self, model: &Model, c: usize) -> Option<Op> {
+        for _ in 0..12 {
+            let op = self.next_raw(model);
+            let wanted = matches!(
+                op,
+                Op::Send { .. } | Op::Poll { .. } | Op::Flush { .. } | Op::StoreOffset { .. } | Op::GetOffset { .. } | Op::GetTopic { .. } | Op::GetTopics { .. } | Op::GetStream { .. } | Op::GetStreams { .. }
+                    | Op::CreateTopic { .. } | Op::UpdateTopic { .. } | Op::CreatePartitions { .. } | Op::PurgeTopic { .. } | Op::CreateGroup { .. } | Op::GetGroups { .. } | Op::GetUsers { .. } | Op::GetClients { .. } | Op::GetStats { .. }
+            );
+            if !wanted {
+                continue;
+            }
+            let mut v = serde_json::to_value(&op).ok()?;
+            let inner = v.as_object_mut()?.values_mut().next()?;
+            inner.as_object_mut()?.insert("c".into(), serde_json::json!(c));
+            return serde_json::from_value(v).ok();
+        }
+        None
     }
 
     fn next_raw(&mut self, model: &Model) -> Op {
